@@ -15,6 +15,7 @@ type pipe struct {
 	eof    bool  // writer side closed: readers drain then get io.EOF
 	rdErr  error // reads fail immediately with this error
 	wrErr  error // writes fail immediately with this error
+	stalled int  // writes currently blocked by the stall
 	stall  bool  // writes block until the stall is lifted (or the pipe fails)
 	limit  int   // >0: writes block while len(buf) >= limit
 	total  int64 // bytes ever written
@@ -74,7 +75,9 @@ func (p *pipe) write(b []byte) (int, error) {
 			return written, io.ErrClosedPipe
 		}
 		if p.stall {
+			p.stalled++
 			p.cond.Wait()
+			p.stalled--
 			continue
 		}
 		if p.limit > 0 && len(p.buf) >= p.limit {
@@ -193,6 +196,13 @@ func (d *Duplex) StallRelayWrites() {
 	d.fromRelay.mu.Lock()
 	d.fromRelay.stall = true
 	d.fromRelay.mu.Unlock()
+}
+
+// StalledWrites is the number of relay writes currently held by StallRelayWrites.
+func (d *Duplex) StalledWrites() int {
+	d.fromRelay.mu.Lock()
+	defer d.fromRelay.mu.Unlock()
+	return d.fromRelay.stalled
 }
 
 // ResumeRelayWrites lifts StallRelayWrites.
